@@ -14,7 +14,9 @@ RULE = ("seeded elections with <=10 projects (<=8 in the quick tier), integer an
         "fraction-valued), initial allocations, Profile/MultiProfile; primal/dual run in-process and diffed with the Lean model (set and "
         "value); ILP path run in a child process with every solver answer re-validated exactly against the model it was given (faults "
         "discarded); plus calls passing sat_profile= (alone, next to a sat_class naming another measure, for a part of the electorate, "
-        "without voters) on both algorithms, judged by the documented precedence (predicate only); predicate = brute force over all subsets; non-trivial = >=4 undecided projects and the optimum is not 'take everything'")
+        "without voters) on both algorithms, judged by the documented precedence (predicate only); predicate = brute force over all subsets; non-trivial = >=4 undecided projects and the optimum is not 'take everything'; "
+        "plus cardinal/cumulative elections with negative and zero scores (projects of negative / zero total satisfaction), both algorithms, resolute and "
+        "irresolute, Profile/MultiProfile, welfare recomputed from the raw ballots (primal/dual also diffed with the Lean model; ILP programs captured)")
 ASSUMPTIONS = ["additive measures", "feasible initial allocation"]
 TRUSTED = ["CBC answers re-validated exactly by harness/mipcheck.py; solver faults are discarded, as the property states",
            "ILP path: the only solver hypothesis of the theorems is WelfareILP.SolverSpec (an answer is an optimal feasible point of the program given, "
@@ -95,6 +97,7 @@ def run(ctx, compare=True, n_pd=None, n_ilp=None):
             ctx.sample(f"maxw-ilp {json.dumps(ruleprops.cfg_json(cfg))} on {case.enc_common()} -> {ans}", cap=8)
         # round 4 (drawn last: the seeds of the streams above are unchanged)
         run_satprofile(ctx, box, m_hi, ctx.scale(700, 6000), ctx.scale(90, 800) if n_ilp else 0)
+        run_negscores(ctx, box, m_hi, ctx.scale(900, 8000), ctx.scale(110, 900) if n_ilp else 0, compare)  # D45 (drawn after everything above)
     finally:
         ctx.solver_faults += 0
         box.close()
@@ -160,6 +163,149 @@ def run_satprofile(ctx, box, m_hi, n_pd, n_ilp):
         ctx.violations.extend(vs)
         if not cfg["res"] and n_opt >= 2:
             ctx.nontrivial.add(case.key() + "ilp-sp")
+
+
+# ----------------------------------------------------------------------------------------------
+# negative (and zero) total satisfaction — defect D45.  The first proof of `primalDual_optimal` needed `0 <= profit`;
+# no generator above ever draws a negative score, and the code was wrong exactly there.
+
+NEG_CARD_SCORES = [-3, -2, -1, -1, 0, 0, 1, 2, 3, F(1, 2), F(-1, 2), F(-5, 3), 5]
+NEG_CUM_SCORES = [-2, -1, -1, 0, 0, 1, 2, 3]
+
+
+def gen_negscore_election(rng, m_hi):
+    """cardinal / cumulative election whose scores may be negative or zero, so that projects have a negative, a zero or a
+    positive TOTAL satisfaction.  Styles: free draw; 'mostly against' (most scores negative); 'cancelling' (a second
+    ballot negates part of the first: zero totals).  Repeated ballots give the MultiProfile real multiplicities."""
+    import random
+
+    sub = rng.getrandbits(48)
+    r = random.Random(sub)
+    btype = r.choice(["card", "card", "cum"])
+    pool = NEG_CARD_SCORES if btype == "card" else NEG_CUM_SCORES
+    if r.random() < 0.35:
+        names = r.sample(core.NAME_POOL, r.randint(1, m_hi))
+        projects = [(n, F(r.choice([1, 1, 1, 2, 0]))) for n in names]  # near-unit costs: everything may fit
+    else:
+        projects = core.gen_projects(r, 1, m_hi, True)
+        names = [n for n, _ in projects]
+    budget = core.gen_budget(r, projects)
+    if r.random() < 0.3:
+        budget = max(budget, sum((c for _, c in projects), F(0)))  # all fit: only the sign of the total decides
+    style = r.random()
+    protos = []
+    for _ in range(r.randint(1, 3)):
+        b = {}
+        for x in names:
+            if r.random() < 0.75:
+                v = F(r.choice(pool))
+                if style < 0.25 and v > 0 and r.random() < 0.7:
+                    v = -v
+                b[x] = v
+        items = list(b.items())
+        r.shuffle(items)
+        protos.append(dict(items))
+    if 0.25 <= style < 0.45 and protos[0]:
+        protos.append({k: -v for k, v in protos[0].items() if r.random() < 0.7})
+    ballots = [dict(p) for p in protos] + [dict(r.choice(protos)) for _ in range(r.randint(0, 3))]
+    r.shuffle(ballots)
+    return Case(projects, budget, btype, ballots, seed=sub)
+
+
+def raw_profit(case):
+    """total satisfaction under Additive_Cardinal_Sat straight from the raw ballots: the sum of the scores a project
+    was given (a project a ballot does not mention scores 0).  Independent of harness/props/C02.py and of the library."""
+    return {p: sum((core.toF(b[p]) for b in case.ballots if p in b), F(0)) for p in case.names}
+
+
+def negscore_pairs(ctx, n, m_hi):
+    rng = ctx.rng
+    for _ in range(n):
+        case = gen_negscore_election(rng, m_hi)
+        cfg = rulegen.gen_rule_cfg(rng, case, rules=("maxw",), allow_refuse=False, allow_float=False)
+        assert cfg["sat"] == "Additive_Cardinal_Sat"
+        yield case, cfg
+
+
+def _neg_sig(case, cfg, profit, **kw):
+    init = set(cfg.get("init") or [])
+    und = [p for p in case.names if p not in init]
+    return dict({"rule": "maxw", "algo": cfg.get("algo", "pd"), "sat": cfg.get("sat"), "stream": "negative-scores",
+                 "negative_totals": sum(1 for p in und if profit[p] < 0), "zero_totals": sum(1 for p in und if profit[p] == 0)}, **kw)
+
+
+def predicate_neg_pd(it):
+    case, cfg = it.case, it.cfg
+    kind, val = it.ans
+    profit = raw_profit(case)
+    if profit != profit_for(case, cfg):  # the harness's own measure layer must agree with the raw sums
+        return [violation("harness: Additive_Cardinal_Sat totals differ from the raw score sums", case, cfg, impl=None, sig=_neg_sig(case, cfg, profit, clause="oracle"))]
+    if kind == "err":
+        return [violation(f"welfare maximiser raised {val}: {it.raw!r}", case, cfg, impl=rules.canon(it.ans), sig=_neg_sig(case, cfg, profit, err=val))]
+    init = cfg.get("init") or []
+    best, arg = oracle.welfare_opt(case, profit, init)
+    names = case.names
+    W = [names[i] for i in val]
+    out = []
+    if len(set(W)) != len(W) or sum((case.cost[p] for p in W), F(0)) > case.budget or not set(init) <= set(W):
+        out.append(violation("welfare maximiser outcome is not a feasible extension of the initial allocation", case, cfg, impl=sorted(val), sig=_neg_sig(case, cfg, profit, clause="feasible")))
+    got = sum((profit[p] for p in W), F(0))
+    und = [p for p in names if p not in set(init)]
+    it.neg_nontrivial = len(und) >= 3 and any(profit[p] < 0 and case.cost[p] > 0 for p in und) and not any(len(s) == len(names) for s in arg)
+    if got != best:
+        out.append(violation(f"welfare {got} is not the optimum {best} (some total satisfactions are negative or zero)", case, cfg, impl=sorted(val),
+                             expected=sorted(sorted(case.rank[p] for p in s) for s in arg)[:3], sig=_neg_sig(case, cfg, profit, clause="optimal")))
+    return out
+
+
+def judge_ilp_neg(case, cfg, ans):
+    """the property's clauses on one answer of the ILP path, welfare from the raw ballots -> (violations, number of optima)"""
+    profit = raw_profit(case)
+    sig = _neg_sig(case, cfg, profit, res=cfg["res"])
+    if not ans.startswith("ok"):
+        return [violation("ILP welfare maximiser failed: " + ans, case, cfg, impl=ans, sig=dict(sig, err=True))], 0
+    best, arg = oracle.welfare_opt(case, profit, cfg.get("init") or [])
+    opt_sets = sorted(sorted(case.rank[p] for p in s) for s in arg)
+    if cfg["res"]:
+        W = sorted(core.parse_outcome(ans))
+        if W not in opt_sets:
+            return [violation("ILP outcome is not a welfare-maximal feasible allocation (negative/zero totals)", case, cfg, impl=W, expected=opt_sets[:4], sig=sig)], len(arg)
+        return [], len(arg)
+    got = sorted(sorted(int(x) for x in part.split(",") if x != "") for part in ans[2:].strip().split("|"))
+    if got != opt_sets:  # a list: an optimum returned twice is a difference too
+        return [violation("irresolute ILP outcomes are not exactly the set of optima, each once (negative/zero totals)", case, cfg, impl=got, expected=opt_sets, sig=sig)], len(arg)
+    return [], len(arg)
+
+
+def run_negscores(ctx, box, m_hi, n_pd, n_ilp, compare=True):
+    """primal/dual: predicate (raw-ballot oracle) + diff with the Lean model; ILP: resolute and irresolute in the child
+    process, predicate; and the captured programs of the ILP path against the model's (negative objective coefficients)"""
+    for it in ruleprops.run_items(ctx, negscore_pairs(ctx, n_pd, m_hi), predicate_neg_pd, lambda it: getattr(it, "neg_nontrivial", False), compare=compare, keep=True):
+        ctx.count("stream", "negative-scores:pd:" + ("multi" if it.cfg.get("multi") else "profile"))
+    if not n_ilp:
+        return
+    C04_ilp.run(ctx, lambda n: negscore_pairs(ctx, n, min(m_hi, 6)), max(20, n_ilp // 3))
+    for case, cfg in negscore_pairs(ctx, n_ilp, min(m_hi, 7)):
+        if ctx.budget_s is not None and ctx.elapsed() > ctx.budget_s:
+            break
+        cfg = dict(cfg, algo="ilp", res=ctx.rng.random() < 0.4)
+        if len(case.names) <= len(set(cfg.get("init") or [])):
+            continue  # no variable at all: CBC answers status OTHER for the empty program (a solver fault)
+        if not cfg["res"] and len(oracle.welfare_opt(case, raw_profit(case), cfg.get("init") or [])[1]) > C04_ilp.MAX_OPTIMA:
+            cfg["res"] = True
+        ans = box.ask({"case": case.to_json(), "cfg": ruleprops.cfg_json(cfg)})
+        ctx.evaluations += 1
+        ctx.count("rule", "maxw-ilp-" + ("res" if cfg["res"] else "irres"))
+        ctx.count("stream", "negative-scores:ilp-" + ("res" if cfg["res"] else "irres") + (":multi" if cfg.get("multi") else ":profile"))
+        if ans.startswith("solver-fault"):
+            ctx.solver_faults += 1
+            continue
+        vs, n_opt = judge_ilp_neg(case, cfg, ans)
+        ctx.violations.extend(vs)
+        profit = raw_profit(case)
+        if any(v < 0 for v in profit.values()) and (cfg["res"] or n_opt >= 2):
+            ctx.nontrivial.add(case.key() + "ilp-neg")
+        ctx.sample(f"maxw-ilp(neg) {json.dumps(ruleprops.cfg_json(cfg))} on {case.enc_common()} -> {ans}", cap=4)
 
 
 def search(ctx, disagreements):
